@@ -5,22 +5,39 @@ package main
 // the property oracle).  The drivers are other agents' packages; nothing here edits them.
 
 import (
+	"crypto/sha256"
 	"fmt"
 	"sort"
 	"strings"
 
 	"github.com/bronlabs/bron-crypto/pkg/base/algebra"
 	"github.com/bronlabs/bron-crypto/pkg/base/curves/k256"
+	"github.com/bronlabs/bron-crypto/pkg/base/serde"
 	"github.com/bronlabs/bron-crypto/pkg/mpc"
+	rg "github.com/bronlabs/bron-crypto/pkg/mpc/dkg/gennaro"
+	rredist "github.com/bronlabs/bron-crypto/pkg/mpc/redistribute"
+	rsess "github.com/bronlabs/bron-crypto/pkg/mpc/session"
 	"github.com/bronlabs/bron-crypto/pkg/mpc/sharing"
 	"github.com/bronlabs/bron-crypto/pkg/mpc/sharing/accessstructures"
 	"github.com/bronlabs/bron-crypto/pkg/mpc/sharing/scheme/kw"
 	"github.com/bronlabs/bron-crypto/pkg/mpc/sharing/vss/feldman"
+	rdkls "github.com/bronlabs/bron-crypto/pkg/mpc/signatures/ecdsa/dkls23"
+	"github.com/bronlabs/bron-crypto/pkg/mpc/signatures/ecdsa/dkls23/signing_bbot"
+	rl22 "github.com/bronlabs/bron-crypto/pkg/mpc/signatures/schnorr/lindell22"
+	l22signing "github.com/bronlabs/bron-crypto/pkg/mpc/signatures/schnorr/lindell22/signing"
+	rhjky "github.com/bronlabs/bron-crypto/pkg/mpc/zero/hjky"
 	"github.com/bronlabs/bron-crypto/pkg/proofs/sigma/compiler/fiatshamir"
+	"github.com/bronlabs/bron-crypto/pkg/signatures/schnorrlike/bip340"
 
 	"verif/harness/internal/drive"
+	dbls "verif/harness/internal/drive/boldyreva"
+	dcan "verif/harness/internal/drive/canetti"
+	dcg "verif/harness/internal/drive/cggmp21"
 	ddkls "verif/harness/internal/drive/dkls23"
 	dgen "verif/harness/internal/drive/gennaro"
+	dhjky "verif/harness/internal/drive/hjky"
+	dl17 "verif/harness/internal/drive/lindell17"
+	dredist "verif/harness/internal/drive/redistribute"
 	"verif/harness/internal/drive/keys"
 	dl22 "verif/harness/internal/drive/lindell22"
 	dsess "verif/harness/internal/drive/session"
@@ -51,7 +68,31 @@ type adapter struct {
 	name     string
 	modelled bool // Deviate.v has a round model (classification is compared)
 	run      func(seed int64, label string, hook drive.Hook) *outcome
+	// norm decodes the bytes of message (round, broadcast?) into the typed message the
+	// recipient would get and re-encodes it (nil if they do not decode): altered bytes whose norm
+	// equals the original bytes are the SAME message for the recipient (a semantic no-op, e.g. a
+	// byte string longer than the fixed-size array it is decoded into).
+	norm func(round int, bcast bool, b []byte) []byte
+	thoroughOnly bool
 }
+
+func normAs[M any](b []byte) []byte {
+	var out []byte
+	vh.Safely(func() {
+		v, err := serde.UnmarshalCBOR[M](b)
+		if err != nil {
+			return
+		}
+		if o, err := serde.MarshalCBOR(v); err == nil {
+			out = o
+		}
+	})
+	return out
+}
+
+type kP = *k256.Point
+type kB = *k256.BaseFieldElement
+type kS = *k256.Scalar
 
 var parties = []sharing.ID{1, 2, 3}
 
@@ -75,12 +116,97 @@ func honestOf(ids []sharing.ID, dev sharing.ID) []sharing.ID {
 	return h
 }
 
-func adapters() []*adapter {
+func adapters(tier string) []*adapter {
+	dklsQuorum := []sharing.ID{1, 2}
+	if tier == "thorough" {
+		dklsQuorum = parties
+	}
 	return []*adapter{
-		{name: "session", modelled: true, run: runSession},
-		{name: "gennaro", modelled: true, run: runGennaro},
-		{name: "dkls23", modelled: true, run: runDkls},
-		{name: "lindell22", modelled: true, run: runL22},
+		{name: "session", modelled: true, run: runSession, norm: func(r int, bc bool, b []byte) []byte {
+			switch {
+			case r == 1:
+				return normAs[*rsess.Round1Broadcast](b)
+			case r == 2 && bc:
+				return normAs[*rsess.Round2Broadcast](b)
+			case r == 2:
+				return normAs[*rsess.Round2P2P](b)
+			case r == 3:
+				return normAs[*rsess.Round3P2P](b)
+			}
+			return nil
+		}},
+		{name: "gennaro", modelled: true, run: runGennaro, norm: func(r int, bc bool, b []byte) []byte {
+			switch {
+			case r == 1 && bc:
+				return normAs[*rg.Round1Broadcast[kP, kS]](b)
+			case r == 1:
+				return normAs[*rg.Round1Unicast[kP, kS]](b)
+			case r == 2:
+				return normAs[*rg.Round2Broadcast[kP, kS]](b)
+			}
+			return nil
+		}},
+		{name: "hjky", modelled: true, run: runHjky, norm: func(r int, bc bool, b []byte) []byte {
+			if bc {
+				return normAs[*rhjky.Round1Broadcast[kP, kS]](b)
+			}
+			return normAs[*rhjky.Round1P2P[kP, kS]](b)
+		}},
+		{name: "redistribute", modelled: true, run: runRedist, norm: func(r int, bc bool, b []byte) []byte {
+			switch {
+			case r == 1 && bc:
+				return normAs[*rredist.Round1Broadcast[kP, kS]](b)
+			case r == 1:
+				return normAs[*rredist.Round1P2P[kP, kS]](b)
+			case r == 2 && bc:
+				return normAs[*rredist.Round2Broadcast[kP, kS]](b)
+			case r == 2:
+				return normAs[*rredist.Round2P2P[kP, kS]](b)
+			}
+			return nil
+		}},
+		{name: "lindell22", modelled: true, run: runL22, norm: func(r int, bc bool, b []byte) []byte {
+			switch {
+			case r == 1 && bc:
+				return normAs[*l22signing.Round1Broadcast[kP, kS, bip340.Message]](b)
+			case r == 1:
+				return normAs[*l22signing.Round1P2P[kP, kS, bip340.Message]](b)
+			case r == 2:
+				return normAs[*l22signing.Round2Broadcast[kP, kS, bip340.Message]](b)
+			case r == 3:
+				return normAs[*rl22.PartialSignature[kP, kS]](b)
+			}
+			return nil
+		}},
+		{name: "boldyreva", modelled: true, run: runBls},
+		{name: "dkls23", modelled: true, run: func(seed int64, label string, hook drive.Hook) *outcome {
+			return runDkls(seed, label, hook, "bbot", dklsQuorum)
+		}, norm: func(r int, bc bool, b []byte) []byte {
+			switch {
+			case r == 1 && bc:
+				return normAs[*signing_bbot.Round1Broadcast[kP, kB, kS]](b)
+			case r == 1:
+				return normAs[*signing_bbot.Round1P2P[kP, kB, kS]](b)
+			case r == 2 && bc:
+				return normAs[*signing_bbot.Round2Broadcast[kP, kB, kS]](b)
+			case r == 2:
+				return normAs[*signing_bbot.Round2P2P[kP, kB, kS]](b)
+			case r == 3 && bc:
+				return normAs[*signing_bbot.Round3Broadcast[kP, kB, kS]](b)
+			case r == 3:
+				return normAs[*signing_bbot.Round3P2P[kP, kB, kS]](b)
+			case r == 4:
+				return normAs[*rdkls.PartialSignature[kP, kB, kS]](b)
+			}
+			return nil
+		}},
+		// protocols without a round model: property oracle (a)-(c) only
+		{name: "canetti", run: runCanetti},
+		{name: "dkls23-softspoken", run: func(seed int64, label string, hook drive.Hook) *outcome {
+			return runDkls(seed, label, hook, "softspoken", []sharing.ID{1, 2})
+		}},
+		{name: "lindell17", run: runL17},
+		{name: "cggmp21", run: runCggmp},
 	}
 }
 
@@ -239,8 +365,10 @@ func common(seed int64, label string, hook drive.Hook) keys.Common {
 	return keys.Common{Seed: seed, Prop: "C04", Labels: labelsAll(label), Hook: hook, Quorum: parties, Session: "real", Message: message}
 }
 
-func runDkls(seed int64, label string, hook drive.Hook) *outcome {
-	res := ddkls.RunFull(ddkls.Config{Common: common(seed, label, hook), Policy: policy, Curve: "k256", Hash: "sha256", Multiplier: "bbot"})
+func runDkls(seed int64, label string, hook drive.Hook, mult string, quorum []sharing.ID) *outcome {
+	c := common(seed, label, hook)
+	c.Quorum = quorum
+	res := ddkls.RunFull(ddkls.Config{Common: c, Policy: policy, Curve: "k256", Hash: "sha256", Multiplier: mult})
 	o := &outcome{tr: res.Trace, ids: res.Quorum, agg: true, setupErr: res.SetupErr}
 	o.judge = func(dev sharing.ID) (bad []finding, returned []sharing.ID) {
 		if res.Sig == nil {
@@ -285,4 +413,185 @@ func runL22(seed int64, label string, hook drive.Hook) *outcome {
 		return bad, returned
 	}
 	return o
+}
+
+// ---- hjky (zero sharing) ---------------------------------------------------------------
+
+func runHjky(seed int64, label string, hook drive.Hook) *outcome {
+	pol, _ := keys.ParsePolicy(policy)
+	ac, err := pol.Build()
+	if err != nil {
+		return &outcome{setupErr: err.Error()}
+	}
+	g := k256.NewCurve()
+	res := dhjky.RunFull(dhjky.Config[kP, kS]{Seed: seed, Prop: "C04", Labels: labelsAll(label), Hook: hook, Group: g, Access: ac})
+	o := &outcome{tr: res.Trace, ids: res.IDs}
+	o.judge = func(dev sharing.ID) (bad []finding, returned []sharing.ID) {
+		for _, id := range honestOf(res.IDs, dev) {
+			if res.Out[id] != nil {
+				returned = append(returned, id)
+			}
+		}
+		if len(returned) == 0 {
+			return nil, nil
+		}
+		p := vh.Safely(func() {
+			scheme, err := feldman.NewScheme(g, ac)
+			if err != nil {
+				bad = append(bad, finding{"oracle-error", err.Error()})
+				return
+			}
+			first := res.Out[returned[0]]
+			for _, id := range returned {
+				out := res.Out[id]
+				if err := scheme.Verify(out.Share, out.VV); err != nil {
+					bad = append(bad, finding{"bad-zero-share-returned", fmt.Sprintf("party %d: its zero share does not verify against the verification vector it returns: %v", uint64(id), err)})
+				}
+				if v0, err := out.VV.Value().Get(0, 0); err != nil || !v0.IsOpIdentity() {
+					bad = append(bad, finding{"bad-zero-share-returned", fmt.Sprintf("party %d: the returned verification vector does not commit to zero", uint64(id))})
+				}
+				if !out.VV.Equal(first.VV) {
+					bad = append(bad, finding{"bad-zero-share-returned", fmt.Sprintf("honest parties %d and %d return different verification vectors", uint64(returned[0]), uint64(id))})
+				}
+			}
+			n := len(returned)
+			for mask := 1; mask < 1<<n; mask++ {
+				var sub []sharing.ID
+				var shs []*kw.Share[kS]
+				for i := 0; i < n; i++ {
+					if mask>>i&1 == 1 {
+						sub = append(sub, returned[i])
+						shs = append(shs, res.Out[returned[i]].Share)
+					}
+				}
+				if !ac.IsQualified(sub...) {
+					continue
+				}
+				sec, err := scheme.Reconstruct(shs...)
+				if err != nil || !sec.Value().IsZero() {
+					bad = append(bad, finding{"bad-zero-share-returned", fmt.Sprintf("qualified honest subset %v does not reconstruct zero (%v)", sub, err)})
+				}
+			}
+		})
+		if p != "" {
+			bad = append(bad, finding{"oracle-panic", p})
+		}
+		return bad, returned
+	}
+	return o
+}
+
+// ---- redistribute (refresh by all three holders) ---------------------------------------
+
+func runRedist(seed int64, label string, hook drive.Hook) *outcome {
+	pol, _ := keys.ParsePolicy(policy)
+	g := k256.NewCurve()
+	dealt, err := keys.Deal[kP, kS](g, pol, vh.NewRng(seed, "C04", "deal", 0))
+	if err != nil {
+		return &outcome{setupErr: err.Error()}
+	}
+	res := dredist.RunFull(dredist.Config[kP, kS]{Seed: seed, Prop: "C04", Labels: labelsAll(label), Hook: hook, Group: g,
+		PrevShards: dealt.Shards, PrevQuorum: parties, Next: dealt.AC})
+	o := &outcome{tr: res.Trace, ids: res.IDs}
+	pk := dealt.PK
+	o.judge = func(dev sharing.ID) ([]finding, []sharing.ID) {
+		return judgeShards[kP, kS](g, dealt.AC, res.Shards, res.NextIDs, dev, &pk)
+	}
+	return o
+}
+
+// ---- canetti DKG (no round model) ------------------------------------------------------
+
+func runCanetti(seed int64, label string, hook drive.Hook) *outcome {
+	pol, _ := keys.ParsePolicy(policy)
+	ac, err := pol.Build()
+	if err != nil {
+		return &outcome{setupErr: err.Error()}
+	}
+	g := k256.NewCurve()
+	res := dcan.RunFull(dcan.Config[kP, kS]{Seed: seed, Prop: "C04", Labels: labelsAll(label), Hook: hook, Group: g, AC: ac})
+	o := &outcome{tr: res.Trace, ids: res.IDs}
+	o.judge = func(dev sharing.ID) ([]finding, []sharing.ID) {
+		return judgeShards[kP, kS](g, ac, res.Shards, res.IDs, dev, nil)
+	}
+	return o
+}
+
+// ---- boldyreva (threshold BLS, one round + aggregator) ---------------------------------
+
+func runBls(seed int64, label string, hook drive.Hook) *outcome {
+	res := dbls.RunFull(dbls.Config{Common: common(seed, label, hook), Policy: policy, KeySize: "short", Mode: "basic"})
+	o := &outcome{tr: res.Trace, ids: res.Quorum, agg: true, setupErr: res.SetupErr}
+	o.judge = func(dev sharing.ID) (bad []finding, returned []sharing.ID) {
+		if res.Sig == nil {
+			return nil, nil
+		}
+		returned = []sharing.ID{0}
+		if res.Lib != "ok" {
+			bad = append(bad, finding{"bad-signature-returned", "the aggregator returned a signature the library verifier rejects: " + res.Trace.Outputs[0]})
+		}
+		if res.Pairing != "ok" {
+			bad = append(bad, finding{"bad-signature-returned", "the aggregator returned a signature that fails e(pk,H(m)) = e(g,sig): " + res.Trace.Outputs[0]})
+		}
+		// BLS signatures are unique: the only valid signature is x·H(m)
+		if res.Predicted != nil && string(res.Predicted) != string(res.Sig) {
+			bad = append(bad, finding{"bad-signature-returned", "the aggregator returned a signature different from x·H(m): " + res.Trace.Outputs[0]})
+		}
+		return bad, returned
+	}
+	return o
+}
+
+// ---- lindell17 (two-party ECDSA; stored Paillier keys; no round model) ------------------
+
+func runL17(seed int64, label string, hook drive.Hook) *outcome {
+	c := common(seed, label, hook)
+	c.Quorum = []sharing.ID{1, 2}
+	res := dl17.RunFull(dl17.Config{Common: c, Policy: policy, Curve: "k256", Hash: "sha256", Compiler: "fischlin"})
+	o := &outcome{tr: res.Trace, ids: []sharing.ID{1, 2}, setupErr: res.SetupErr}
+	o.judge = func(dev sharing.ID) (bad []finding, returned []sharing.ID) {
+		if res.Sig == nil || dev == res.Primary {
+			return nil, nil // only the primary obtains an output
+		}
+		returned = []sharing.ID{res.Primary}
+		if res.LibOK != "ok" {
+			bad = append(bad, finding{"bad-signature-returned", "the primary returned a signature the library verifier rejects: " + res.Trace.Outputs[res.Primary]})
+		}
+		d := sha256Sum(message)
+		if !secpECDSAVerify(pt{x: res.PKX, y: res.PKY}, d, res.Sig.R, res.Sig.S) {
+			bad = append(bad, finding{"bad-signature-returned", "the primary returned a signature the independent verifier rejects: " + res.Trace.Outputs[res.Primary]})
+		}
+		return bad, returned
+	}
+	return o
+}
+
+// ---- cggmp21 (stored keys; no round model) ---------------------------------------------
+
+func runCggmp(seed int64, label string, hook drive.Hook) *outcome {
+	c := common(seed, label, hook)
+	c.Quorum = []sharing.ID{1, 2}
+	c.Session = "seeded"
+	res := dcg.RunFull(dcg.Config{Common: c, Policy: policy, Curve: "k256", Hash: "sha256"})
+	o := &outcome{tr: res.Trace, ids: res.Quorum, agg: true, setupErr: res.SetupErr}
+	o.judge = func(dev sharing.ID) (bad []finding, returned []sharing.ID) {
+		if res.Sig == nil {
+			return nil, nil
+		}
+		returned = []sharing.ID{0}
+		if res.LibOK != "ok" {
+			bad = append(bad, finding{"bad-signature-returned", "the aggregator returned a signature the library verifier rejects: " + res.Trace.Outputs[0]})
+		}
+		d := sha256Sum(message)
+		if !secpECDSAVerify(pt{x: res.PKX, y: res.PKY}, d, res.Sig.R, res.Sig.S) {
+			bad = append(bad, finding{"bad-signature-returned", "the aggregator returned a signature the independent verifier rejects: " + res.Trace.Outputs[0]})
+		}
+		return bad, returned
+	}
+	return o
+}
+
+func sha256Sum(b []byte) []byte {
+	h := sha256.Sum256(b)
+	return h[:]
 }
